@@ -33,6 +33,15 @@ type Frame struct {
 	// Bare (H): the header block consists of a dynamic-table-size update only and
 	// decodes to no field at all (empty trailers); Fields is empty.
 	Bare bool `json:"bare,omitempty"`
+	// Rep (D): the frame is written Rep times back to back (a burst of small frames)
+	Rep int `json:"rep,omitempty"`
+}
+
+func (f Frame) times() int {
+	if f.T == "D" && f.Rep > 1 {
+		return f.Rep
+	}
+	return 1
 }
 
 // Win is a receiver's flow-control behaviour: the initial stream window it
@@ -194,6 +203,14 @@ func genBody(t *rapid.T, stream uint32, b *budget, big bool) lane {
 	var l lane
 	nd := rapid.IntRange(0, 3).Draw(t, "ndata")
 	ending := rapid.SampledFrom([]string{"data-end", "data-end", "trailers", "trailers", "rst", "open"}).Draw(t, "ending")
+	if rapid.IntRange(0, 9).Draw(t, "dburst") == 0 && b.left >= 400 {
+		// many small frames: more than the relay's output channel holds become
+		// eligible at once when the receiver finally grants credit
+		f := Frame{T: "D", S: stream, Pad: -1, N: rapid.SampledFrom([]int{1, 3}).Draw(t, "dburst_size"), Seed: 7,
+			Rep: rapid.SampledFrom([]int{40, 80, 120}).Draw(t, "dburst_count")}
+		b.left -= f.N * f.Rep
+		l = append(l, f)
+	}
 	for i := 0; i < nd; i++ {
 		if rapid.IntRange(0, 9).Draw(t, "midprio") == 0 {
 			l = append(l, Frame{T: "P", S: stream, Pad: -1, Prio: genPrio(t, stream)})
